@@ -501,7 +501,7 @@ def extra_obligations(mods, tier, seed):
                         hist.append("close()")
                         mon.close()
                     else:
-                        v = rh.choice([0, 7, -3, 2.5, True, None, "text", "", "é"])
+                        v = rh.choice([0, 7, -3, 2.5, True, None, "text", "", "é", (7,), (1, 2), (), [1, 2], {"a": 1}, b"raw", "100%", "%s %d", "{0} {}", 1e300, -0.0])
                         hist.append(f"write({v!r})")
                         before = {id(c): len(c.writes) for c in _Fake.opened}
                         ret = mon.write(v)
